@@ -1248,6 +1248,7 @@ func main() {
 		streamC13(r)
 	case "C14":
 		streamC14(r)
+		streamC14Held(r.Fork("held"))
 	case "C15":
 		streamC15(r)
 	case "C10":
@@ -1277,6 +1278,197 @@ type held struct {
 	bytes [][]byte
 	copyS []string
 	copyB [][]byte
+	nums  []interface{} // the slices the numeric XxxValues accessors handed out ...
+	copyN []string      // ... and what they held at that time
+}
+
+// every numeric slice accessor of one field: the caller keeps what it gets
+func holdNums(fd *lazyproto.FieldData, h *held) {
+	keep := func(v interface{}, err error) {
+		if err == nil {
+			h.nums = append(h.nums, v)
+			h.copyN = append(h.copyN, fmt.Sprint(v))
+		}
+	}
+	{
+		v, err := fd.Int32Values()
+		keep(v, err)
+	}
+	{
+		v, err := fd.SInt32Values()
+		keep(v, err)
+	}
+	{
+		v, err := fd.Int64Values()
+		keep(v, err)
+	}
+	{
+		v, err := fd.SInt64Values()
+		keep(v, err)
+	}
+	{
+		v, err := fd.UInt32Values()
+		keep(v, err)
+	}
+	{
+		v, err := fd.UInt64Values()
+		keep(v, err)
+	}
+	{
+		v, err := fd.Fixed32Values()
+		keep(v, err)
+	}
+	{
+		v, err := fd.Fixed64Values()
+		keep(v, err)
+	}
+	{
+		v, err := fd.BoolValues()
+		keep(v, err)
+	}
+	{
+		v, err := fd.Float32Values()
+		keep(v, err)
+	}
+	{
+		v, err := fd.Float64Values()
+		keep(v, err)
+	}
+}
+
+// aliasProbe: one decode whose handed-out values are kept by the caller and compared after (1) the input
+// buffer is overwritten, (2) every accessor is called again (scratch reuse within one result), (3) Close and
+// later decodes recycle the pooled result.  entry "dec" = Decoder.Decode, "fn" = the deprecated package-level
+// Decode (always safe).
+type probeOut struct {
+	readsChanged, heldAfterOverwrite, heldAfterReaccess, heldAfterReuse bool
+	nheld                                                               int
+	input                                                               []byte
+	ok                                                                  bool
+}
+
+func aliasProbe(r *hx.Rng, entry string, d *def, lv *level, fast bool, maxbuf int) (po probeOut) {
+	mode := csproto.DecoderModeSafe
+	if fast {
+		mode = csproto.DecoderModeFast
+	}
+	opts := []lazyproto.Option{lazyproto.WithMode(mode)}
+	if maxbuf >= 0 {
+		opts = append(opts, lazyproto.WithMaxBufferSize(maxbuf))
+	}
+	dec, err := lazyproto.NewDecoder(d.toGo(), opts...)
+	if err != nil {
+		return
+	}
+	input := encodeAll(randMessage(r, lv))
+	if len(input) == 0 {
+		return
+	}
+	po.input = input
+	buf := append([]byte{}, input...)
+	var res *lazyproto.DecodeResult
+	if entry == "fn" {
+		rv, err := lazyproto.Decode(buf, d.toGo())
+		if err != nil {
+			return
+		}
+		res = &rv
+	} else {
+		res, err = dec.Decode(buf)
+		if err != nil || res == nil {
+			return
+		}
+	}
+	po.ok = true
+	// hold on to real values (not renderings) of every top-level tag
+	var h held
+	for _, k := range d.keys {
+		if fd, err := res.GetFieldData(k); err == nil {
+			if s, err := fd.StringValue(); err == nil {
+				h.strs = append(h.strs, s)
+			}
+			if ss, err := fd.StringValues(); err == nil {
+				h.strs = append(h.strs, ss...)
+			}
+			if b, err := fd.BytesValue(); err == nil {
+				h.bytes = append(h.bytes, b)
+			}
+			if bs, err := fd.BytesValues(); err == nil {
+				h.bytes = append(h.bytes, bs...)
+			}
+			holdNums(fd, &h)
+		}
+	}
+	for _, s := range h.strs {
+		h.copyS = append(h.copyS, strings.Clone(s))
+	}
+	for _, b := range h.bytes {
+		h.copyB = append(h.copyB, append([]byte{}, b...))
+	}
+	po.nheld = len(h.strs) + len(h.bytes) + len(h.nums)
+	ops := genOps(r, d, lv, 6)
+	before := snapshotAll(res, ops)
+	// 1. the caller overwrites its buffer; then reads again
+	for j := range buf {
+		buf[j] ^= 0xFF
+	}
+	after := snapshotAll(res, ops)
+	for j := range before {
+		if before[j] != after[j] {
+			po.readsChanged = true
+		}
+	}
+	heldChanged := func() bool {
+		for j, s := range h.strs {
+			if s != h.copyS[j] {
+				return true
+			}
+		}
+		for j, b := range h.bytes {
+			if string(b) != string(h.copyB[j]) {
+				return true
+			}
+		}
+		for j, v := range h.nums {
+			if fmt.Sprint(v) != h.copyN[j] {
+				return true
+			}
+		}
+		return false
+	}
+	po.heldAfterOverwrite = heldChanged()
+	// 2. every accessor once more, in the other order: what was handed out before must not be scratch space
+	for j := len(d.keys) - 1; j >= 0; j-- {
+		if fd, err := res.GetFieldData(d.keys[j]); err == nil {
+			var scratch held
+			holdNums(fd, &scratch)
+			_, _ = fd.StringValues()
+			_, _ = fd.BytesValues()
+		}
+	}
+	po.heldAfterReaccess = heldChanged()
+	// 3. Close, then recycle the pooled result with other inputs
+	_ = res.Close()
+	for k := 0; k < 3; k++ {
+		other := encodeAll(randMessage(r, lv))
+		if len(other) == 0 {
+			other = []byte{0x08, 0x01}
+		}
+		if r2, err := dec.Decode(other); err == nil && r2 != nil {
+			for _, o := range ops {
+				observe(r2, o)
+			}
+			for _, kk := range d.keys {
+				if fd, err := r2.GetFieldData(kk); err == nil {
+					var scratch held
+					holdNums(fd, &scratch)
+				}
+			}
+			_ = r2.Close()
+		}
+	}
+	po.heldAfterReuse = heldChanged()
+	return
 }
 
 func streamC10(r *hx.Rng) {
@@ -1290,109 +1482,64 @@ func streamC10(r *hx.Rng) {
 		if len(d.keys) == 0 {
 			continue
 		}
-		for _, fast := range []bool{false, true} {
-			mode := csproto.DecoderModeSafe
-			if fast {
-				mode = csproto.DecoderModeFast
-			}
-			dec, err := lazyproto.NewDecoder(d.toGo(), lazyproto.WithMode(mode), lazyproto.WithMaxBufferSize([]int{0, 1, 2, 100}[i%4]))
-			if err != nil {
+		for _, cfg := range []struct {
+			entry string
+			fast  bool
+		}{{"dec", false}, {"dec", true}, {"fn", false}} {
+			fast := cfg.fast
+			po := aliasProbe(r, cfg.entry, d, lv, fast, []int{0, 1, 2, 100}[i%4])
+			if !po.ok {
 				continue
 			}
-			input := encodeAll(randMessage(r, lv))
-			if len(input) == 0 {
-				continue
-			}
-			buf := append([]byte{}, input...)
-			res, err := dec.Decode(buf)
-			if err != nil || res == nil {
-				continue
-			}
-			// hold on to real values (not renderings): strings and byte slices of every top-level tag
-			var h held
-			for _, k := range d.keys {
-				if fd, err := res.GetFieldData(k); err == nil {
-					if s, err := fd.StringValue(); err == nil {
-						h.strs = append(h.strs, s)
-					}
-					if ss, err := fd.StringValues(); err == nil {
-						h.strs = append(h.strs, ss...)
-					}
-					if b, err := fd.BytesValue(); err == nil {
-						h.bytes = append(h.bytes, b)
-					}
-					if bs, err := fd.BytesValues(); err == nil {
-						h.bytes = append(h.bytes, bs...)
-					}
-				}
-			}
-			for _, s := range h.strs {
-				h.copyS = append(h.copyS, strings.Clone(s))
-			}
-			for _, b := range h.bytes {
-				h.copyB = append(h.copyB, append([]byte{}, b...))
-			}
-			ops := genOps(r, d, lv, 6)
-			before := snapshotAll(res, ops)
-			// 1. the caller overwrites its buffer
-			for j := range buf {
-				buf[j] ^= 0xFF
-			}
-			after := snapshotAll(res, ops)
-			changed := false
-			for j := range before {
-				if before[j] != after[j] {
-					changed = true
-				}
-			}
-			heldChanged := func() bool {
-				for j, s := range h.strs {
-					if s != h.copyS[j] {
-						return true
-					}
-				}
-				for j, b := range h.bytes {
-					if string(b) != string(h.copyB[j]) {
-						return true
-					}
-				}
-				return false
-			}
-			hc1 := heldChanged()
-			// 2. Close, then recycle the pooled result with other inputs
-			_ = res.Close()
-			for k := 0; k < 3; k++ {
-				other := encodeAll(randMessage(r, lv))
-				if len(other) == 0 {
-					other = []byte{0x08, 0x01}
-				}
-				if r2, err := dec.Decode(other); err == nil && r2 != nil {
-					for _, o := range ops {
-						observe(r2, o)
-					}
-					_ = r2.Close()
-				}
-			}
-			hc2 := heldChanged()
 			sink.OracleN++
-			cs := fmt.Sprintf("def=%s input=%s fast=%v", d, hx.B(input), fast)
+			cs := fmt.Sprintf("def=%s input=%s fast=%v entry=%s", d, hx.B(po.input), fast, cfg.entry)
 			impl := "same"
-			if changed || hc1 || hc2 {
+			if po.readsChanged || po.heldAfterOverwrite || po.heldAfterReaccess || po.heldAfterReuse {
 				impl = "changed"
 			}
 			if !fast && impl == "changed" {
 				what := "values read from a safe-mode lazy decode result changed when the input buffer was overwritten"
-				if !changed && !hc1 && hc2 {
-					what = "values handed out by a safe-mode lazy decode result changed after Close and later decodes"
+				if !po.readsChanged && !po.heldAfterOverwrite {
+					what = "values handed out by a safe-mode lazy decode result changed after further accessor calls / Close and later decodes"
 				}
-				fail(what, cs, "unchanged", fmt.Sprintf("reads-changed=%v held-changed-after-overwrite=%v held-changed-after-reuse=%v", changed, hc1, hc2), "lazy-alias")
+				fail(what, cs, "unchanged", fmt.Sprintf("reads-changed=%v held-changed-after-overwrite=%v after-reaccess=%v after-reuse=%v",
+					po.readsChanged, po.heldAfterOverwrite, po.heldAfterReaccess, po.heldAfterReuse), "lazy-alias")
 			}
 			m := "safe"
 			if fast {
 				m = "fast"
 				impl = "unspecified" // the user opted into aliasing: nothing is claimed
 			}
-			sink.Add("lazy-alias", fmt.Sprintf("L10 %s %d %s", m, len(h.strs)+len(h.bytes), hx.B(input)), impl, len(h.strs)+len(h.bytes) > 0)
+			sink.Add("lazy-alias", fmt.Sprintf("L10 %s %d %s", m, po.nheld, hx.B(po.input)), impl, po.nheld > 0)
+		}
+	}
+}
+
+// C14, second oracle: values a caller obtained from a result (strings, byte slices and the numeric slices
+// of every XxxValues accessor) must not change when the same or another result of the pool is used later.
+// (In fast mode the documented contract lets values share memory with the input; the pool's own scratch
+// space is still not the caller's, but only the safe mode is asserted.)
+func streamC14Held(r *hx.Rng) {
+	n := 300
+	if thorough {
+		n = 4000
+	}
+	for i := 0; i < n; i++ {
+		lv := randLevel(r, 2)
+		d := randDef(r, lv, 2)
+		if len(d.keys) == 0 {
+			continue
+		}
+		po := aliasProbe(r, "dec", d, lv, false, []int{-1, 0, 1, 2, 1000}[i%5])
+		if !po.ok {
+			continue
+		}
+		sink.OracleN++
+		sink.Count("held-probe")
+		if po.heldAfterReaccess || po.heldAfterReuse {
+			fail("values handed out earlier by a pooled result changed when the result (or the pool) was used again",
+				fmt.Sprintf("def=%s input=%s", d, hx.B(po.input)), "unchanged",
+				fmt.Sprintf("after-reaccess=%v after-close-and-reuse=%v", po.heldAfterReaccess, po.heldAfterReuse), "pool-held")
 		}
 	}
 }
